@@ -368,6 +368,15 @@ Definition same_parent_named (w : world) (h mv : id) : bool :=
   | None => false
   end.
 
+(* side condition of remove_file for the last file: the root element is of a named type or of a reference type (then
+   the reset of the two maps is wrong: the root keeps a SHORT-NAME / a reference text).  Never the case for a root
+   made by AutosarModel::new with the generated tables (the AUTOSAR type is neither). *)
+Definition root_unplain (w : world) (m : N) : bool :=
+  match model_at w m with
+  | Some x => named_node w (m_root x) || is_ref_node T w (m_root x)
+  | None => false
+  end.
+
 Definition copy_container (w : world) (other : id) : bool :=
   negb (identifiable T w other) && existsb (identifiable T w) (walk (S (N.to_nat (w_next w))) w other).
 
@@ -392,7 +401,8 @@ Definition Known04 (w : world) (o : op) : bool :=
     | Some n => match n_content n with _ :: CElem s :: _ => is_short_node w s | _ => false end
     | None => false
     end
-  | OpRemoveFromFile _ _ | OpRemoveFile _ _ => late_short w
+  | OpRemoveFromFile _ _ => late_short w
+  | OpRemoveFile m f => late_short w || (last_file w m f && root_unplain w m)
   | _ => false
   end.
 
@@ -401,7 +411,6 @@ Definition Pending04 (w : world) (o : op) : bool :=
   match o with
   | OpCopy _ _ | OpCopyAt _ _ _ | OpMove _ _ | OpMoveAt _ _ _
   | OpSetItemName _ _ => true
-  | OpRemoveFile m f => last_file w m f
   | _ => false
   end.
 
